@@ -247,29 +247,54 @@ func mkCmp(op string, a, b *Term) *Term {
 	}
 	return app(op, SBool, a, b)
 }
+// mkAdd builds a canonical n-ary sum: nested sums are flattened, literals folded, the remaining summands sorted by their text.
+// (Canonical index terms are what lets quantifier patterns such as (select row (+ i off)) match ground terms.)
 func mkAdd(a, b *Term) *Term {
-	if x, ok := isLitInt(a); ok {
-		if y, ok := isLitInt(b); ok {
-			return mkInt(x + y)
+	var parts []*Term
+	var lit int64
+	litOK := true
+	var collect func(t *Term)
+	collect = func(t *Term) {
+		if n, ok := isLitInt(t); ok {
+			if (lit > 0 && n > (1<<62)) || (lit < 0 && n < -(1<<62)) {
+				litOK = false
+			}
+			lit += n
+			return
 		}
-		if x == 0 {
-			return b
+		if t.Op == "+" && len(t.Bound) == 0 && !t.Lit && t.UF == nil {
+			for _, x := range t.Args {
+				collect(x)
+			}
+			return
 		}
+		parts = append(parts, t)
 	}
-	if y, ok := isLitInt(b); ok && y == 0 {
-		return a
+	collect(a)
+	collect(b)
+	if !litOK {
+		return app("+", SInt, a, b)
 	}
-	return app("+", SInt, a, b)
+	sort.SliceStable(parts, func(i, j int) bool { return parts[i].String() < parts[j].String() })
+	if lit != 0 {
+		parts = append(parts, mkInt(lit))
+	}
+	switch len(parts) {
+	case 0:
+		return mkInt(0)
+	case 1:
+		return parts[0]
+	}
+	return app("+", SInt, parts...)
 }
 func mkSub(a, b *Term) *Term {
-	if x, ok := isLitInt(a); ok {
-		if y, ok := isLitInt(b); ok {
-			return mkInt(x - y)
-		}
+	if y, ok := isLitInt(b); ok {
+		return mkAdd(a, mkInt(-y))
 	}
-	if y, ok := isLitInt(b); ok && y == 0 {
-		return a
+	if a.String() == b.String() {
+		return mkInt(0)
 	}
+	// a - (b1 + b2 + lit) keeps the literal part canonical
 	return app("-", SInt, a, b)
 }
 func mkMul(a, b *Term) *Term {
@@ -358,6 +383,14 @@ func mkForall(bound []*Term, body *Term, pats ...*Term) *Term {
 	if len(bound) == 0 || body == tTrue {
 		return body
 	}
+	// patterns must not contain interpreted control (ite) and must mention every bound variable together
+	var ok []*Term
+	for _, p := range pats {
+		if !strings.Contains(p.String(), "(ite ") {
+			ok = append(ok, p)
+		}
+	}
+	pats = ok
 	return &Term{Op: "forall", Sort: SBool, Args: []*Term{body}, Bound: bound, Pats: pats}
 }
 func mkExists(bound []*Term, body *Term) *Term {
